@@ -680,7 +680,8 @@ class Frame(object):
             v = self.add(cur, rhs)
         elif isinstance(node.op, ast.BitOr) and isinstance(node.target, ast.Name) and \
                 not (isinstance(cur, Const) and isinstance(rhs, Const)):
-            v = Sym('(%s | %s)' % (render(cur), render(rhs)))
+            v = Sym('(%s | %s)' % (render(cur), render(rhs)), types=self._or_types(cur))
+            v.or_self = v.types is not None
             st.events.append(('ior', render(cur), render(rhs), node.lineno))
         else:
             v = self.binop(node.op, cur, rhs)
@@ -1469,7 +1470,27 @@ class Frame(object):
         r = self.ev(node.right, st)
         if isinstance(node.op, ast.Add):
             return self.add(l, r)
-        return self.binop(node.op, l, r)
+        v = self.binop(node.op, l, r)
+        if isinstance(node.op, ast.BitOr) and isinstance(v, Sym) and v.types is None:
+            v.types = self._or_types(l)
+            v.or_self = v.types is not None
+        return v
+
+    def _or_types(self, left):
+        """Type tags of `left | x` when left is an object of a repo class whose __or__ returns its receiver on every returning
+        path (the composition idiom `obj |= part`): the result is that object, so isinstance tests on it are decidable."""
+        if isinstance(left, Sym) and left.types is not None and getattr(left, 'or_self', False):
+            return left.types
+        cls = left.cls if isinstance(left, (Sym, Obj)) else None
+        if cls is None:
+            return None
+        fi = cls.find_method('__or__')
+        if fi is None or not fi.params:
+            return None
+        rets = [n for n in _preorder(fi.node) if isinstance(n, ast.Return)]
+        if not rets or not all(isinstance(n.value, ast.Name) and n.value.id == fi.params[0] for n in rets):
+            return None
+        return {cls.name}
 
     def add(self, l, r):
         if isinstance(l, Bytes) or isinstance(r, Bytes):
